@@ -381,6 +381,9 @@ impl World {
             let by_leader = pre.role == StateRole::Leader && post.role == StateRole::Leader && pre.term == post.term;
             if by_leader {
                 self.c04_leader_commit(i, pre, post, ctx);
+                for idx in (pre.committed + 1)..=post.committed.min(63) {
+                    self.ghost.cl_by_leader |= 1 << idx;
+                }
             } else if !matches!(kind, CallKind::New) && post.committed > self.ghost.max_leader_commit {
                 ctx.v(
                     "C04",
@@ -390,6 +393,30 @@ impl World {
                         id, post.role, pre.committed, post.committed, self.ghost.max_leader_commit
                     ),
                 );
+            } else if !matches!(kind, CallKind::New) {
+                // every index a non-leader marks committed was committed by a leader under the
+                // commit rule, and with the entry this node holds there
+                for idx in (pre.committed + 1)..=post.committed.min(63) {
+                    let by_l = self.ghost.cl_by_leader & (1 << idx) != 0;
+                    let reg = self.ghost.cl.get(idx as usize).cloned().flatten();
+                    let mine = post.at(idx).map(|x| (x.0, x.1));
+                    let same = match (reg, mine) {
+                        (Some(r), Some(m)) => r == m,
+                        (Some(r), None) if idx == post.first - 1 => r.0 == post.base_term,
+                        _ => true,
+                    };
+                    if !by_l || reg.is_none() || !same {
+                        ctx.v(
+                            "C04",
+                            "non-leader commit covers an entry no leader committed",
+                            format!(
+                                "node {} ({:?}) commit {} -> {}: index {} held as {:?}, committed by a leader: {} as {:?}",
+                                id, post.role, pre.committed, post.committed, idx, mine.map(|m| m.0), by_l, reg.map(|r| r.0)
+                            ),
+                        );
+                        break;
+                    }
+                }
             }
             for idx in (pre.committed + 1)..=post.committed {
                 if let Some((t, d, _)) = post.at(idx) {
@@ -1235,7 +1262,7 @@ impl World {
                     }
                     self.c01_report_term(i, si, st, "snapshot install", ctx);
                 } else {
-                    let matched = (si == pre.first - 1 && st == pre.base_term) || pre.at(si).map(|x| x.0) == Some(st);
+                    let matched = (si == pre.first - 1 && pre.base_known && st == pre.base_term) || pre.at(si).map(|x| x.0) == Some(st);
                     if matched && pre.pending_request_snapshot == 0 && member && si >= pre.committed && pre.role == StateRole::Follower {
                         ctx.stat(Stat::SnapshotFastForward);
                         if post.first != pre.first || post.last != pre.last || post.log != pre.log {
@@ -1294,7 +1321,8 @@ impl World {
                 let asked_now = matches!(kind, CallKind::Step(r) if r.from == m.to && r.request_snapshot != 0);
                 let asked_before = pre_flow.iter().find(|p| p.id == m.to).map(|p| p.pending_request_snapshot != 0).unwrap_or(false);
                 let next = p.map(|p| p.next_idx).unwrap_or(0);
-                let unavailable = next < post.first || next == 0;
+                // the entry before next must be known too (MemStorage-style compaction forgets it)
+                let unavailable = next < post.first || next == 0 || (next == post.first && !post.base_known);
                 if !(asked_now || asked_before || unavailable) {
                     ctx.v(
                         "C15",
